@@ -12,6 +12,9 @@
 (*   impv / impc   AMGCL_PARAMS_IMPORT_VALUE / _IMPORT_CHILD names                  *)
 (*   expv / expc   AMGCL_PARAMS_EXPORT_VALUE / _EXPORT_CHILD names                  *)
 (*   chk           the names given to check_params                                 *)
+(*   lk            how check_params looks a key up in that list: "exact" (the code: *)
+(*                 std::set::count) or "prefix" (a key is accepted when it is a     *)
+(*                 prefix of a listed name - what a lower_bound + compare does)     *)
 (*                                                                                  *)
 (* An abstract property tree is  [v |-> [key -> code], c |-> [key -> tree]];        *)
 (* value codes: 0 = the component's default, 1, 2 = two distinct non-default        *)
@@ -33,6 +36,14 @@ Fields(S) == S.vf \cup DOMAIN S.cf
 
 WellFormedTree(t) == /\ DOMAIN t = {"v", "c"}
 
+\* strings
+IsPrefix(k, n) == Len(k) <= Len(n) /\ SubSeq(n, 1, Len(k)) = k
+Understood(S)  == Fields(S) \cup S.xk
+\* near misses of the understood names of one structure: every proper prefix and every
+\* one-character extension that is not itself understood (truncated / mistyped keys)
+NearMiss(S) == (UNION {{SubSeq(n, 1, j) : j \in 1..(Len(n) - 1)} : n \in Understood(S)} \cup {n \o "x" : n \in Understood(S)})
+               \ (Understood(S) \cup {""})
+
 ------------------------------------------------------------------------------
 (* Transcription of the code path  params(const ptree &p)  /  get(ptree&, path).    *)
 
@@ -51,8 +62,9 @@ Throws(S, t) ==
 
 \* check_params(p, {names}): every key of p that is not in the list goes to
 \* AMGCL_PARAM_UNKNOWN(key) - the key only, without its path
+Accepted(S, k) == IF S.lk = "exact" THEN k \in S.chk ELSE \E n \in S.chk : IsPrefix(k, n)
 Reported(S, t) ==
-    (Keys(t) \ S.chk) \cup
+    {k \in Keys(t) : ~Accepted(S, k)} \cup
     UNION {Reported(S.cf[f], Sub(t, f)) : f \in S.impc \cap DOMAIN S.cf}
 
 \* AMGCL_PARAMS_EXPORT_VALUE: p.put(path + "name", name); _CHILD: name.get(p, path + "name.")
@@ -73,6 +85,7 @@ TopSchemaOK(S, foreign) ==
     /\ S.impc = DOMAIN S.cf /\ S.expc = DOMAIN S.cf
     /\ Fields(S) \cup S.xk \subseteq S.chk
     /\ S.chk \cap foreign = {}
+    /\ S.lk = "exact"
 SchemaOK(S, foreign) ==
     /\ TopSchemaOK(S, foreign)
     /\ \A f \in DOMAIN S.cf : SchemaOK(S.cf[f], foreign)
@@ -120,7 +133,7 @@ Ideal(S) ==
     [vf |-> S.vf, ef |-> S.ef, xk |-> S.xk,
      cf |-> [f \in DOMAIN S.cf |-> Ideal(S.cf[f])],
      impv |-> S.vf, expv |-> S.vf, impc |-> DOMAIN S.cf, expc |-> DOMAIN S.cf,
-     chk |-> Fields(S) \cup S.xk]
+     chk |-> Fields(S) \cup S.xk, lk |-> "exact"]
 
 \* everything the property says about one imported tree
 AllOK(S, t, o, rep, e, threw) ==
@@ -138,7 +151,7 @@ RunOK(S, t) ==
 ------------------------------------------------------------------------------
 (* Tree families.                                                                   *)
 
-RECURSIVE Trees(_, _, _), Probes(_, _), Paths(_)
+RECURSIVE Trees(_, _, _, _), Probes(_, _), Paths(_)
 
 PartialFns(K, V) == UNION {[D -> V] : D \in SUBSET K}
 
@@ -148,16 +161,18 @@ Join(p) == IF p = <<>> THEN "" ELSE "_" \o Head(p) \o Join(Tail(p))
 Unk(lvl) == "zz" \o Join(lvl)
 
 \* every tree over the fields of S (values from vs; Bad on enumerations only) with an
-\* optional unknown key at each nesting level
-Trees(S, lvl, vs) ==
+\* optional unknown key at each nesting level; with near = TRUE every level additionally
+\* holds all near-miss keys of its structure
+NearPart(S, near) == IF near THEN [k \in NearMiss(S) |-> 1] ELSE <<>>
+Trees(S, lvl, vs, near) ==
     LET vals == {g \in PartialFns(S.vf \cup {Unk(lvl)}, vs \cup {1, Bad}) :
                     /\ \A k \in DOMAIN g : g[k] = Bad => k \in S.ef
                     /\ Unk(lvl) \in DOMAIN g => g[Unk(lvl)] = 1}
         kids == DOMAIN S.cf
         \* choose for every child: absent or one of its trees
-        pick == UNION {[D -> UNION {Trees(S.cf[f], Append(lvl, f), vs) : f \in D}] : D \in SUBSET kids}
-        ok(h) == \A f \in DOMAIN h : h[f] \in Trees(S.cf[f], Append(lvl, f), vs)
-    IN  {[v |-> g, c |-> h] : g \in vals, h \in {h \in pick : ok(h)}}
+        pick == UNION {[D -> UNION {Trees(S.cf[f], Append(lvl, f), vs, near) : f \in D}] : D \in SUBSET kids}
+        ok(h) == \A f \in DOMAIN h : h[f] \in Trees(S.cf[f], Append(lvl, f), vs, near)
+    IN  {[v |-> g @@ NearPart(S, near), c |-> h] : g \in vals, h \in {h \in pick : ok(h)}}
 
 \* nesting levels of a schema
 Paths(S) == {<<>>} \cup UNION {{<<f>> \o p : p \in Paths(S.cf[f])} : f \in DOMAIN S.cf}
@@ -176,6 +191,17 @@ Probes(S, dummy) ==
             {Wrap(p, [v |-> (f :> 1), c |-> <<>>]) : f \in L.vf} \cup
             {Wrap(p, [v |-> (f :> Bad), c |-> <<>>]) : f \in L.ef} \cup
             {Wrap(p, [v |-> (k :> 1), c |-> <<>>]) : k \in L.xk} \cup
-            {Wrap(p, [v |-> (Unk(p) :> 1), c |-> <<>>])}
+            {Wrap(p, [v |-> (Unk(p) :> 1), c |-> <<>>])} \cup
+            (IF NearMiss(L) = {} THEN {} ELSE {Wrap(p, [v |-> [k \in NearMiss(L) |-> 1], c |-> <<>>])})
           : p \in Paths(S) }
+
+\* UnknownKeysRejected: over the prefix closure (and the one-character extensions) of the
+\* names a structure understands, every key that is not itself understood is reported -
+\* at every nesting level.  A property of the transcribed check (ParamsModel invariant);
+\* on the real code the same trees are judged by UnknownReported.
+UnknownKeysRejected(S) ==
+    \A p \in Paths(S) :
+        LET L == At(S, p)
+            t == Wrap(p, [v |-> [k \in NearMiss(L) |-> 1], c |-> <<>>])
+        IN  NearMiss(L) \subseteq Reported(S, t)
 =============================================================================
